@@ -53,6 +53,44 @@ pub fn alphabet(name: &str) -> Vec<Input> {
         "bitsbytes" => {
             bits(&mut v);
         }
+        // composite alphabets for C18: every entry point of Keyboard, small per-stage alphabets
+        "mixedq" | "mixed" => {
+            let full = name == "mixed";
+            bits(&mut v);
+            let ys: &[u8] = if full {
+                &[0xE0, 0xE1, 0xF0, 0x14, 0x12, 0x77, 0x1C, 0x00, 0xAA, 0x02]
+            } else {
+                &[0xE0, 0xF0, 0x1C, 0x02]
+            };
+            for y in ys {
+                v.push(Input::Byte(*y));
+            }
+            let enc = |b: u8| -> u16 {
+                let par = if b.count_ones() % 2 == 0 { 1u16 } else { 0 };
+                ((b as u16) << 1) | (par << 9) | (1 << 10)
+            };
+            let ws: Vec<u16> = if full {
+                ys.iter().map(|y| enc(*y)).collect()
+            } else {
+                vec![enc(0xE0), enc(0x1C)]
+            };
+            for w in ws {
+                v.push(Input::Word(w));
+            }
+            v.push(Input::Word(enc(0x1C) | 1)); // bad start bit
+            v.push(Input::Word(enc(0x1C) & !(1 << 10))); // bad stop bit
+            v.push(Input::Word(enc(0x1C) ^ (1 << 9))); // parity error
+            use pc_keyboard::KeyCode as K;
+            v.push(Input::Key(K::LShift, KeyState::Down));
+            v.push(Input::Key(K::LShift, KeyState::Up));
+            if full {
+                v.push(Input::Key(K::A, KeyState::Down));
+                v.push(Input::Key(K::NumpadLock, KeyState::Down));
+                v.push(Input::Key(K::RControl2, KeyState::Down));
+                v.push(Input::Key(K::RControl2, KeyState::Up));
+            }
+            modes(&mut v);
+        }
         _ => {
             eprintln!("pkv: unknown alphabet {}", name);
             std::process::exit(2)
@@ -74,7 +112,12 @@ fn rebuild(comp: &str, alpha: &[Input], access: &[usize]) -> Box<dyn Machine> {
 /// {i, id, access:[alphabet indices, 1-based], obs, out:[..], q:[..], post:[state index or 0]}
 /// post = 0 means the call panicked (no post-state). States beyond `cap` are listed with
 /// `expanded:false` and empty out/post so an unbounded object still yields a finite file.
-pub fn extract(comp: &str, alpha_name: &str, cap: usize, w: &mut dyn Write, alpha_out: Option<&mut dyn Write>) {
+pub fn extract(comp_arg: &str, alpha_name: &str, cap: usize, w: &mut dyn Write, alpha_out: Option<&mut dyn Write>) {
+    // "<component>:lean" drops the long id / query / stage strings from the records
+    let (comp, lean) = match comp_arg.strip_suffix(":lean") {
+        Some(c) => (c, true),
+        None => (comp_arg, false),
+    };
     let alpha = alphabet(alpha_name);
     if let Some(aw) = alpha_out {
         let a: Vec<Value> = alpha.iter().map(|i| i.to_json()).collect();
@@ -125,11 +168,15 @@ pub fn extract(comp: &str, alpha_name: &str, cap: usize, w: &mut dyn Write, alph
             }
         }
         let acc1: Vec<usize> = access.iter().map(|a| a + 1).collect();
-        let rec = json!({
-            "i": next + 1, "id": id, "access": acc1, "obs": obs, "expanded": expanded,
-            "stage": stage.map(|s| json!(s)).unwrap_or(json!([])),
-            "out": outs, "q": qs, "post": posts
-        });
+        let rec = if lean {
+            json!({"i": next + 1, "access": acc1, "obs": obs, "expanded": expanded, "out": outs, "post": posts})
+        } else {
+            json!({
+                "i": next + 1, "id": id, "access": acc1, "obs": obs, "expanded": expanded,
+                "stage": stage.map(|s| json!(s)).unwrap_or(json!([])),
+                "out": outs, "q": qs, "post": posts
+            })
+        };
         writeln!(w, "{}", rec).unwrap();
         next += 1;
     }
